@@ -1,7 +1,200 @@
+import AuModel.Mixed
 import Driver.Util
-open Au
+open Au Au.Mixed
 
-def dispatchC08 : List String → Option String
+namespace C08Cmd
+
+def opOfName? : String → Option CmpOp
+  | "eq" => some .eq | "ne" => some .ne | "lt" => some .lt
+  | "le" => some .le | "gt" => some .gt | "ge" => some .ge
   | _ => none
 
-/-! Driver commands for C08. -/
+def ordStr : Ordering → String
+  | .lt => "less" | .eq => "equal" | .gt => "greater"
+
+def evalS {α : Type} (f : α → String) : Eval α → String
+  | .ok v => f v
+  | .ub _ => "ub"
+
+structure Inst where
+  r1 : IntTy
+  r2 : IntTy
+  u1 : URat
+  u2 : URat
+
+def parseInst? : List String → Option Inst
+  | [r1s, r2s, n1s, d1s, n2s, d2s] =>
+    match IntTy.ofName? r1s, IntTy.ofName? r2s, parseNat? n1s, parseNat? d1s, parseNat? n2s, parseNat? d2s with
+    | some r1, some r2, some n1, some d1, some n2, some d2 =>
+      if n1 = 0 || d1 = 0 || n2 = 0 || d2 = 0 then none else some ⟨r1, r2, ⟨n1, d1⟩, ⟨n2, d2⟩⟩
+    | _, _, _, _, _, _ => none
+  | _ => none
+
+def Inst.k1 (i : Inst) : Nat := URat.ratioL i.u1 i.u2
+def Inst.k2 (i : Inst) : Nat := URat.ratioR i.u1 i.u2
+
+/-- One operation on one pair of values: canonical answer line. -/
+def opLine (i : Inst) (op : String) (v1 v2 : Int) : Option String :=
+  let k1 := i.k1; let k2 := i.k2
+  let pre := s!"k1={k1} k2={k2}"
+  let fc := decide (FitsCommon i.r1 i.r2 k1 k2 v1 v2)
+  let fo := decide (FitsOwn i.r1 i.r2 k1 k2 v1 v2)
+  match op with
+  | "add" =>
+    let r := add i.r1 i.r2 k1 k2 v1 v2
+    some s!"{pre} compiles={b01 (commonCompiles i.r1 i.r2 k1 k2)} rep={(sumRep i.r1 i.r2).name} val={evalS toString r.val} wrapped={b01 r.wrapped} narrowed={b01 r.narrowed} scope={b01 (fc && decide (SumFits i.r1 i.r2 k1 k2 v1 v2))}"
+  | "sub" =>
+    let r := sub i.r1 i.r2 k1 k2 v1 v2
+    some s!"{pre} compiles={b01 (commonCompiles i.r1 i.r2 k1 k2)} rep={(sumRep i.r1 i.r2).name} val={evalS toString r.val} wrapped={b01 r.wrapped} narrowed={b01 r.narrowed} scope={b01 (fc && decide (DiffFits i.r1 i.r2 k1 k2 v1 v2))}"
+  | "mod" =>
+    let r := mod i.r1 i.r2 k1 k2 v1 v2
+    some s!"{pre} compiles={b01 (ownCompiles i.r1 i.r2 k1 k2)} rep={(modRep i.r1 i.r2).name} val={evalS toString r.val} wrapped={b01 r.wrapped} narrowed={b01 r.narrowed} scope={b01 (fo && decide (ModDefined i.r1 i.r2 k1 k2 v1 v2))}"
+  | "cmp3" =>
+    let r := spaceship i.r1 i.r2 k1 k2 v1 v2
+    some s!"{pre} compiles={b01 (ownCompiles i.r1 i.r2 k1 k2)} rep=ord val={evalS ordStr r.val} wrapped={b01 r.wrapped} narrowed={b01 r.narrowed} scope={b01 fo}"
+  | _ =>
+    match opOfName? op with
+    | some o =>
+      let r := cmp o i.r1 i.r2 k1 k2 v1 v2
+      some s!"{pre} compiles={b01 (commonCompiles i.r1 i.r2 k1 k2)} rep=bool val={evalS b01 r.val} wrapped={b01 r.wrapped} narrowed={b01 r.narrowed} scope={b01 fc}"
+    | none => none
+
+/-! Exhaustive windows: a digest over every `(v1, v2)` of a rectangle, restricted to the cases in the
+scope of the statement.  The harness computes the same digest from the real operators. -/
+
+def M64 : Nat := 18446744073709551616
+
+def weight (v1 v2 : Int) : Nat :=
+  let a := (v1 % (M64 : Int)).toNat
+  let b := (v2 % (M64 : Int)).toNat
+  ((a * 6364136223846793005 + b * 1442695040888963407) % M64) ||| 1
+
+def codeInt (x : Int) : Nat := (x % (M64 : Int)).toNat
+
+structure Acc where
+  n : Nat := 0
+  h : Nat := 0
+
+def Acc.push (a : Acc) (w code : Nat) : Acc := ⟨a.n + 1, (a.h + (code + 1) % M64 * w) % M64⟩
+def Acc.str (a : Acc) : String := s!"{a.n}:{a.h}"
+
+def opNames : List String := ["eq", "ne", "lt", "le", "gt", "ge", "add", "sub", "mod", "cmp3"]
+
+/-- Codes of the model's answers for the ten operations at `(v1, v2)`, `none` when the case is out of the
+scope of the corresponding theorem.  The operands are evaluated once per cell through
+`commonPair` / `ownPair`; `AuProofs.C08` (`cmp_val`, `add_val`, `sub_val`, `mod_val`, `spaceship_val`) proves
+that the operations are exactly these functions of the pairs.  A model answer of `ub` inside the scope is
+coded as `2^64 - 2` (never produced by the harness). -/
+def cellCodes (i : Inst) (k1 k2 : Nat) (v1 v2 : Int) : List (Option Nat) :=
+  let fc := decide (FitsCommon i.r1 i.r2 k1 k2 v1 v2)
+  let fo := decide (FitsOwn i.r1 i.r2 k1 k2 v1 v2)
+  let ub := M64 - 2
+  let c := IntTy.common i.r1 i.r2
+  let cp := (commonPair i.r1 i.r2 k1 k2 v1 v2).val
+  let cmpc (o : CmpOp) : Option Nat :=
+    if fc then some (match cp with | .ok (x, y) => (if o.eval x y then 1 else 0) | .ub _ => ub) else none
+  let stepc (s : Int → Int → Step) (inScope : Bool) : Option Nat :=
+    if fc && inScope then
+      some (match cp with
+        | .ok (x, y) => (match (s x y).val with | .ok z => codeInt z | .ub _ => ub)
+        | .ub _ => ub)
+    else none
+  let op := if fo then some (ownPair i.r1 i.r2 k1 k2 v1 v2).val else none
+  let modc : Option Nat :=
+    if fo && decide (ModDefined i.r1 i.r2 k1 k2 v1 v2) then
+      some (match op with
+        | some (.ok (x, y)) => (match (modIn (modRep i.r1 i.r2) x y).val with | .ok z => codeInt z | .ub _ => ub)
+        | _ => ub)
+    else none
+  let c3 : Option Nat :=
+    if fo then
+      some (match op with
+        | some (.ok (x, y)) => (match compare x y with | .lt => 0 | .eq => 1 | .gt => 2)
+        | _ => ub)
+    else none
+  [cmpc .eq, cmpc .ne, cmpc .lt, cmpc .le, cmpc .gt, cmpc .ge,
+   stepc (addIn c.promote) (decide (SumFits i.r1 i.r2 k1 k2 v1 v2)),
+   stepc (subIn c.promote) (decide (DiffFits i.r1 i.r2 k1 k2 v1 v2)), modc, c3]
+
+def sweepAll (i : Inst) (lo1 hi1 lo2 hi2 : Int) : Array Acc := Id.run do
+  let k1 := i.k1; let k2 := i.k2
+  let n1 := (hi1 - lo1 + 1).toNat
+  let n2 := (hi2 - lo2 + 1).toNat
+  let mut accs : Array Acc := Array.replicate 10 {}
+  for a in [0:n1] do
+    for b in [0:n2] do
+      let v1 := lo1 + a
+      let v2 := lo2 + b
+      let w := weight v1 v2
+      let codes := cellCodes i k1 k2 v1 v2
+      let mut j := 0
+      for c in codes do
+        match c with
+        | some code => accs := accs.modify j (fun x => x.push w code)
+        | none => pure ()
+        j := j + 1
+  return accs
+
+def cmdSweep (args : List String) : String :=
+  match args with
+  | [r1s, r2s, n1s, d1s, n2s, d2s, lo1s, hi1s, lo2s, hi2s] =>
+    match parseInst? [r1s, r2s, n1s, d1s, n2s, d2s], parseInt? lo1s, parseInt? hi1s, parseInt? lo2s, parseInt? hi2s with
+    | some i, some lo1, some hi1, some lo2, some hi2 =>
+      if !(decide (i.r1.inRange lo1) && decide (i.r1.inRange hi1) && decide (i.r2.inRange lo2) && decide (i.r2.inRange hi2))
+          || hi1 < lo1 || hi2 < lo2 || (hi1 - lo1 + 1) * (hi2 - lo2 + 1) > 1000000 then "bad-op"
+      else
+        let accs := sweepAll i lo1 hi1 lo2 hi2
+        " ".intercalate ((opNames.zip accs.toList).map fun (op, a) => s!"{op}={a.str}")
+    | _, _, _, _, _ => "bad-op"
+  | _ => "bad-op"
+
+def cmdOp (args : List String) : String :=
+  match args with
+  | [op, r1s, r2s, n1s, d1s, n2s, d2s, v1s, v2s] =>
+    match parseInst? [r1s, r2s, n1s, d1s, n2s, d2s], parseInt? v1s, parseInt? v2s with
+    | some i, some v1, some v2 =>
+      if !(decide (i.r1.inRange v1) && decide (i.r2.inRange v2)) then "bad-op"
+      else match opLine i op v1 v2 with
+        | some s => s
+        | none => "bad-op"
+    | _, _, _ => "bad-op"
+  | _ => "bad-op"
+
+def cmdUnit (args : List String) : String :=
+  match args with
+  | [n1s, d1s, n2s, d2s] =>
+    match parseNat? n1s, parseNat? d1s, parseNat? n2s, parseNat? d2s with
+    | some n1, some d1, some n2, some d2 =>
+      if n1 = 0 || d1 = 0 || n2 = 0 || d2 = 0 then "bad-op" else
+      let u1 : URat := ⟨n1, d1⟩; let u2 : URat := ⟨n2, d2⟩
+      let c := (URat.common u1 u2).reduced
+      s!"k1={URat.ratioL u1 u2} k2={URat.ratioR u1 u2} cnum={c.num} cden={c.den}"
+    | _, _, _, _ => "bad-op"
+  | _ => "bad-op"
+
+/-- `c08gate r k` → whether the implicit-conversion policy admits the integer ratio `k` in rep `r`. -/
+def cmdGate (args : List String) : String :=
+  match args with
+  | [rs, ks] =>
+    match IntTy.ofName? rs, parseNat? ks with
+    | some r, some k => if k = 0 then "bad-op" else s!"ok={b01 (implicitOk r k)}"
+    | _, _ => "bad-op"
+  | _ => "bad-op"
+
+/-- `c08gates r1 r2 n1 d1 n2 d2` → the model's compile gates for the two groups of operations. -/
+def cmdGates (args : List String) : String :=
+  match parseInst? args with
+  | some i => s!"common={b01 (commonCompiles i.r1 i.r2 i.k1 i.k2)} own={b01 (ownCompiles i.r1 i.r2 i.k1 i.k2)} lookup={b01 (lookupOk i.r1 i.r2 i.k1 i.k2)}"
+  | none => "bad-op"
+
+end C08Cmd
+
+def dispatchC08 : List String → Option String
+  | "c08op" :: args => some (C08Cmd.cmdOp args)
+  | "c08sweep" :: args => some (C08Cmd.cmdSweep args)
+  | "c08unit" :: args => some (C08Cmd.cmdUnit args)
+  | "c08gate" :: args => some (C08Cmd.cmdGate args)
+  | "c08gates" :: args => some (C08Cmd.cmdGates args)
+  | _ => none
+
+/-! Driver commands for C08 (AuModel.Mixed, AuModel.CommonRat). -/
